@@ -92,6 +92,26 @@ def register(reg):
                 # the documented refusal for units of different categories
                 'ExceptionUnitsMissmatchedCategory': 'map_has("ucat", u_1) and map_has("ucat", u_2) and map_get("ucat", u_1) != map_get("ucat", u_2)'},
         canaries=['result == v'], crosscheck=False))
+    # ------------------------------------------------------------------ LIS engineering values: the shared conversion helper behind
+    # every EngVal arithmetic operator and comparison refuses exactly what Units.convert refuses (same units: the value itself)
+    import z3
+    EVF = 'src/TotalDepth/LIS/core/EngVal.py'
+    EV = KRec('EngVal', value=Real, uom=Int)
+    G_EV = {'DIMENSIONLESS': z3.Int('unit_id_of_the_blank_unit')}
+    REFUSE = {'ExceptionUnitsUnknownUnit': 'theUnits != self.uom and (not map_has("ucat", self.uom) or not map_has("ucat", theUnits))',
+              'ExceptionUnitsMissmatchedCategory': 'theUnits != self.uom and map_has("ucat", self.uom) and map_has("ucat", theUnits)'
+                                                   ' and map_get("ucat", self.uom) != map_get("ucat", theUnits)'}
+    reg.add(Contract(EVF, 'EngVal.dimensionless', inline=True))
+    reg.add(Contract(EVF, 'EngVal.getInUnits', {'self': EV, 'theUnits': Int}, returns=Real, globals_=G_EV, raises=REFUSE,
+                     ensures=['implies(theUnits == self.uom, result == self.value)'], canaries=['result == self.value'], crosscheck=False))
+    reg.add(Contract(EVF, 'EngVal.__init__', {'self': KRec('EngVal'), 'theVal': Real, 'theUom': Int}, modifies=[('self.value', Real), ('self.uom', Int)],
+                     ensures=['self.value == theVal', 'self.uom == theUom'], trusted=True, note='EngVal(value, units) stores its arguments'), verify=False)
+    reg.add(Contract(EVF, 'EngVal.newEngValInUnits', {'self': EV, 'theUnits': Int}, returns=EV, globals_=G_EV, raises=REFUSE,
+                     ensures=['result.uom == theUnits', 'implies(theUnits == self.uom, result.value == self.value)'],
+                     canaries=['result.value == self.value'], crosscheck=False))
+    reg.add(Contract(EVF, 'EngVal.convert', {'self': EV, 'theUnits': Int}, globals_=G_EV, raises=REFUSE, modifies=['self.value', 'self.uom'],
+                     ensures=['self.uom == theUnits', 'implies(theUnits == old(self.uom), self.value == old(self.value))'],
+                     canaries=['self.value == old(self.value)'], crosscheck=False))
 
 
 def standins(tier, seed):
